@@ -7,7 +7,7 @@
 From Coq Require Import Lia ZifyBool ZifyN ZifyNat.
 Require Import BV.Model.Base BV.Model.SrcB BV.Model.Length BV.Model.Tag BV.Model.Twos BV.Model.Int
                BV.Model.Content BV.Model.OctStr BV.Model.Encode BV.Model.Prog.
-Require Import BV.Proofs.Bits BV.Proofs.SrcBP BV.Proofs.LengthP BV.Proofs.TagP BV.Proofs.ContentP
+Require Import BV.Proofs.Bits BV.Proofs.SrcBP BV.Proofs.LengthP BV.Proofs.TagP BV.Proofs.ContentP BV.Proofs.OctGrammarP
                BV.Proofs.WinP BV.Proofs.TotalP BV.Proofs.DeltaP BV.Proofs.IntP BV.Proofs.IntEncP
                BV.Proofs.EncodeP BV.Proofs.GrammarP BV.Proofs.EncGrammarP BV.Proofs.TypedP.
 Arguments N.add : simpl never. Arguments N.sub : simpl never.
@@ -142,10 +142,7 @@ Fixpoint enc_l (fs : list schema) (vs : list sval) : option (list etree) :=
   | _, _ => None
   end.
 Lemma enc_s_seq t fs vs : enc_s (SSeq t fs) (VSeq vs) = option_map (fun es => ECons t (ESeq es)) (enc_l fs vs).
-Proof.
-  cbn [enc_s]. f_equal. revert vs. induction fs as [|f fr IH]; intros [|x xr]; try reflexivity.
-  cbn [enc_l]. rewrite <- IH. reflexivity.
-Qed.
+Proof. reflexivity. Qed.
 
 (* typed decoding: expected-tag, mandatory reads; a record reads its fields in order *)
 Fixpoint dec_s (fuel : nat) (s : schema) (c : cons) : M (sval * cons) :=
@@ -237,4 +234,226 @@ Proof.
     repeat (apply Safe_if); try apply Safe_cerr; apply Safe_ret; auto.
   - eapply Safe_bind with (Q := fun _ => St true z); [|intro; apply Safe_ret; auto].
     unfold to_null. eapply Safe_bind; [apply St_remaining|]. intro r. apply Safe_if; [apply Safe_cerr|apply Safe_ret; auto].
+Qed.
+
+(* ---- the composition theorem ---- *)
+Definition ctx_ok (c : cons) (l : option N) : Prop :=
+  cst c <> Done /\ (cst c = Definite -> exists x, l = Some x).
+Lemma may_start_of c l n : ctx_ok c l -> lim_ge l n -> 1 <= n -> may_start c l.
+Proof.
+  intros [Hd Hx] Hl Hn. unfold may_start. destruct (cst c) eqn:E; auto; try congruence.
+  destruct (Hx eq_refl) as [x ->]. exists x. split; [reflexivity|]. cbn in Hl. lia.
+Qed.
+Lemma ctx_ok_sub c l n : ctx_ok c l -> ctx_ok c (lim_sub l n).
+Proof. intros [Hd Hx]. split; [exact Hd|]. intro E. destruct (Hx E) as [x ->]. cbn. eauto. Qed.
+
+(* a reader in mode [m'] is handed octets written in mode [m]: the same mode, or DER output read as BER *)
+Definition reads (m m' : mode) : Prop := m' = m \/ (m = Der /\ m' = Ber).
+Lemma lenoct_reads m m' n lw : reads m m' -> lenoct m n lw -> lenoct m' n lw.
+Proof. intros [->|[-> ->]] H; [exact H|exact (lenoct_to_ber _ _ _ H)]. Qed.
+
+Definition RT (s : schema) : Prop :=
+  forall v e m d, schema_ok s -> enc_s s v = Some e -> enc_write m e = Ok d ->
+  1 <= len d /\
+  forall fuel c rest l, (sdepth s <= fuel)%nat -> reads m (cmd c) -> octets_ok (d ++ rest) = true ->
+    lim_ge l (len d) -> ctx_ok c l ->
+    dec_s fuel s c (mkSrc (d ++ rest) l None) = (Ok (v, c), mkSrc rest (lim_sub l (len d)) None).
+
+Definition RTL (fs : list schema) : Prop :=
+  forall vs es m ds, schemas_ok fs -> enc_l fs vs = Some es -> enc_write m (ESeq es) = Ok ds ->
+  forall fuel c rest l, (sdepths fs <= fuel)%nat -> reads m (cmd c) -> octets_ok (ds ++ rest) = true ->
+    lim_ge l (len ds) -> ctx_ok c l ->
+    dec_l fuel fs c (mkSrc (ds ++ rest) l None) = (Ok (vs, c), mkSrc rest (lim_sub l (len ds)) None).
+
+Lemma enc_write_seq_cons m e er ds : enc_write m (ESeq (e :: er)) = Ok ds ->
+  exists d1 ds2, enc_write m e = Ok d1 /\ enc_write m (ESeq er) = Ok ds2 /\ ds = d1 ++ ds2.
+Proof.
+  rewrite !enc_write_seq. cbn [fold_right]. destruct (enc_write m e) as [a| | | |]; try discriminate.
+  cbn [res_bind]. destruct (fold_right _ _ er) as [b| | | |]; try discriminate. intros [= <-]. eauto.
+Qed.
+
+Lemma RTL_of_Forall fs : Forall RT fs -> RTL fs.
+Proof.
+  induction 1 as [|s r Hs Hr IH]; intros vs es m ds Hok He Hw fuel c rest l Hf Hm Ho Hl Hc.
+  - destruct vs; [|discriminate]. injection He as <-. injection Hw as <-.
+    destruct fuel as [|f]; [cbn in Hf; lia|]. cbn [dec_l app len length N.of_nat]. rewrite lim_sub_0. reflexivity.
+  - destruct vs as [|v vr]; [discriminate|]. cbn [enc_l] in He.
+    destruct (enc_s s v) as [e|] eqn:E1; [|discriminate]. destruct (enc_l r vr) as [er|] eqn:E2; [|discriminate].
+    injection He as <-. destruct Hok as [Hok1 Hok2].
+    destruct (enc_write_seq_cons m e er ds Hw) as (d1 & ds2 & W1 & W2 & ->).
+    destruct (Hs v e m d1 Hok1 E1 W1) as [Hpos Hdec].
+    cbn [sdepths] in Hf. pose proof (sdepth_pos s) as Hp1.
+    assert (Hp2 : (1 <= sdepths r)%nat) by (destruct r; cbn [sdepths]; [lia|pose proof (sdepth_pos s0); lia]).
+    destruct fuel as [|f]; [lia|]. cbn [dec_l]. rewrite <- app_assoc. rewrite len_app in Hl.
+    rewrite (bind_ok _ _ _ _ _ (Hdec f c (ds2 ++ rest) l ltac:(lia) Hm ltac:(rewrite app_assoc; exact Ho)
+                                   ltac:(eapply lim_ge_mono; [|exact Hl]; lia) Hc)).
+    cbv iota beta.
+    rewrite (bind_ok _ _ _ _ _ (IH vr er m ds2 Hok2 E2 W2 f c rest (lim_sub l (len d1)) ltac:(lia) Hm
+                                   ltac:(rewrite <- app_assoc in Ho; apply octets_ok_app_r in Ho; exact Ho)
+                                   ltac:(apply lim_ge_sub; exact Hl) (ctx_ok_sub _ _ _ Hc))).
+    rewrite lim_sub_sub, len_app. reflexivity.
+Qed.
+
+Lemma RT_leaf t k : RT (SLeaf t k).
+Proof.
+  intros v e m d Hok He Hw. cbn [enc_s] in He. destruct (lenc k v) as [cc|] eqn:El; [|discriminate].
+  injection He as <-. cbn [enc_write] in Hw. unfold tlv_write in Hw.
+  destruct (length_write (len cc)) as [lw| | | |] eqn:Elw; try discriminate. injection Hw as <-.
+  destruct Hok as [Hleg Heov].
+  split. { rewrite len_app. pose proof (tag_write_len_pos false t). lia. }
+  intros fuel c rest l Hf Hm Ho Hl Hc. destruct fuel as [|f]; [cbn in Hf; lia|]. cbn [dec_s].
+  unfold mandatory.
+  rewrite (bind_ok _ _ _ _ _ (leaf_field_if (lop k) t cc lw v c rest l (Win_lop k (cmd c)) (St_lop k (cmd c))
+             Hleg Heov (lenoct_reads _ _ _ _ Hm (lenoct_write _ _ _ Elw)) (leaf_law k (cmd c) v cc El) Ho Hl
+             (may_start_of c l _ Hc Hl ltac:(rewrite len_app; pose proof (tag_write_len_pos false t); lia)))).
+  reflexivity.
+Qed.
+
+Lemma cons_exhausted_eoc m rest l : octets_ok (0 :: 0 :: rest) = true -> lim_ge l 2 ->
+  cons_exhausted (mkCons Indefinite m) (mkSrc (0 :: 0 :: rest) l None) = (Ok tt, mkSrc rest (lim_sub l 2) None).
+Proof.
+  intros Ho Hl. unfold cons_exhausted. cbn [cst cmd].
+  change (0 :: 0 :: rest) with (tag_write false END_OF_VALUE ++ [0] ++ rest).
+  assert (Htw : len (tag_write false END_OF_VALUE) = 1) by reflexivity.
+  assert (H0 : len [0] = 1) by reflexivity.
+  assert (Hl1 : lim_ge l (len (tag_write false END_OF_VALUE))) by (eapply lim_ge_mono; [|exact Hl]; rewrite Htw; lia).
+  rewrite (bind_ok _ _ _ _ _ (tag_at_limit END_OF_VALUE false ([0] ++ rest) l legal_eov Hl1)).
+  change (tag_eqb END_OF_VALUE END_OF_VALUE) with true. cbn [negb orb].
+  assert (Hl2 : lim_ge (lim_sub l (len (tag_write false END_OF_VALUE))) (len [0])).
+  { apply lim_ge_sub. eapply lim_ge_mono; [|exact Hl]. rewrite Htw, H0. lia. }
+  rewrite (bind_ok _ _ _ _ _ (length_at_limit m [0] rest _ (Definite_ 0)
+             ltac:(apply octets_ok_cons in Ho as [_ Ho]; exact Ho) eq_refl Hl2)).
+  cbn [length_is_zero N.eqb]. unfold ret. rewrite lim_sub_sub, Htw, H0. reflexivity.
+Qed.
+
+Lemma RT_seq t fs : Forall RT fs -> RT (SSeq t fs).
+Proof.
+  intros HF v e m d Hok He Hw. pose proof (RTL_of_Forall fs HF) as HL.
+  destruct v as [x|b| |vs]; try discriminate. rewrite enc_s_seq in He.
+  destruct (enc_l fs vs) as [es|] eqn:El; [|discriminate]. injection He as <-.
+  apply schema_ok_seq in Hok as [[Hleg Heov] Hoks].
+  remember (ESeq es) as be eqn:Ebe. cbn [enc_write] in Hw. subst be.
+  assert (Htw := tag_write_len_pos true t).
+  destruct m.
+  - (* BER: definite *)
+    destruct (enc_len Ber (ESeq es)) as [n| | | |] eqn:En; try discriminate. cbn [res_bind] in Hw.
+    destruct (length_write n) as [lw| | | |] eqn:Elw; try discriminate. cbn [res_bind] in Hw.
+    destruct (enc_write Ber (ESeq es)) as [body| | | |] eqn:Eb; try discriminate. injection Hw as <-.
+    rewrite enc_len_is_written, Eb in En. injection En as <-.
+    split. { rewrite len_app. lia. }
+    intros fuel c rest l Hf Hm Ho Hl Hc. rewrite sdepth_seq in Hf. destruct fuel as [|f]; [lia|]. cbn [dec_s].
+    rewrite <- !app_assoc in *. rewrite !len_app in Hl.
+    assert (Hl' : lim_ge l (len (tag_write true t) + len lw)) by (eapply lim_ge_mono; [|exact Hl]; lia).
+    unfold mandatory.
+    rewrite (bind_ok _ _ _ (Some (VSeq vs), c) (mkSrc rest (lim_sub l (len (tag_write true t) + (len lw + len body))) None)); [rewrite !len_app; reflexivity|].
+    rewrite (pnv_header_if c _ t true lw (Definite_ (len body)) (body ++ rest) l Hleg Ho
+               (lenoct_reads _ _ _ _ Hm (lenoct_write Ber _ _ Elw) _) Hl'
+               (may_start_of c l _ Hc Hl' ltac:(lia))).
+    unfold pnv_tail. rewrite Heov.
+    set (l1 := lim_sub l (len (tag_write true t) + len lw)).
+    assert (Hl1 : lim_ge l1 (len body)) by (subst l1; destruct l as [y|]; cbn [lim_ge lim_sub] in *; [lia|trivial]).
+    unfold bind at 1. unfold get_lim at 1. cbn [lim]. cbv beta iota.
+    unfold bind at 1. rewrite (lim_check l1 (len body) Hl1). cbv beta iota.
+    unfold bind at 1. unfold set_limit at 1. cbn [rem flt]. cbv beta iota.
+    assert (Hnc : mode_eqb (cmd c) Cer = false) by (destruct Hm as [->|[_ ->]]; reflexivity).
+    rewrite Hnc. cbn [andb]. unfold bind at 1. unfold ret at 1. cbv beta iota.
+    unfold bind at 1. unfold bind at 1.
+    rewrite (HL vs es Ber body Hoks El Eb f (mkCons Definite (cmd c)) rest (Some (len body)) ltac:(lia) Hm
+               ltac:(apply octets_ok_app_r in Ho; apply octets_ok_app_r in Ho; exact Ho) ltac:(cbn; lia)
+               ltac:(split; [discriminate|intros _; eauto])).
+    cbv beta iota. unfold ret at 1. cbv beta iota. cbn [lim_sub]. replace (len body - len body) with 0 by lia.
+    cbn [content_exhausted cons_exhausted cst]. unfold bind at 1. rewrite src_exhausted_0. cbv beta iota.
+    unfold bind, set_limit, ret. cbn [rem flt]. subst l1. rewrite lim_sub_sub.
+    replace (len (tag_write true t) + len lw + len body) with (len (tag_write true t) + (len lw + len body)) by lia.
+    reflexivity.
+  - (* CER: indefinite *)
+    destruct (enc_write Cer (ESeq es)) as [body| | | |] eqn:Eb; try discriminate. injection Hw as <-.
+    split. { rewrite len_app. lia. }
+    intros fuel c rest l Hf Hm Ho Hl Hc. rewrite sdepth_seq in Hf. destruct fuel as [|f]; [lia|]. cbn [dec_s].
+    assert (Hm' : cmd c = Cer) by (destruct Hm as [E|[E _]]; [exact E|discriminate E]).
+    rewrite <- !app_assoc in *. cbn [app] in *. rewrite <- (app_assoc body [0; 0] rest) in *. cbn [app] in *.
+    change (128 :: body ++ 0 :: 0 :: rest) with ([128] ++ (body ++ 0 :: 0 :: rest)) in *.
+    assert (Hlen : len (tag_write true t ++ 128 :: body ++ [0; 0]) = len (tag_write true t) + 1 + (len body + 2)).
+    { rewrite len_app, len_cons, len_app. cbn [len length N.of_nat]. lia. }
+    rewrite Hlen in Hl.
+    assert (Hl' : lim_ge l (len (tag_write true t) + len [128])) by (eapply lim_ge_mono; [|exact Hl]; cbn [len length N.of_nat]; lia).
+    unfold mandatory.
+    rewrite (bind_ok _ _ _ (Some (VSeq vs), c) (mkSrc rest (lim_sub l (len (tag_write true t) + 1 + (len body + 2))) None));
+      [rewrite Hlen; reflexivity|].
+    rewrite (pnv_header_if c _ t true [128] Indefinite_ (body ++ 0 :: 0 :: rest) l Hleg Ho (lenoct_indef _ _) Hl'
+               (may_start_of c l _ Hc Hl' ltac:(lia))).
+    unfold pnv_tail. rewrite Heov. rewrite Hm'. cbn [negb orb mode_eqb].
+    unfold bind at 1. unfold bind at 1.
+    set (l1 := lim_sub l (len (tag_write true t) + len [128])).
+    assert (Hl1 : lim_ge l1 (len body + 2)).
+    { subst l1. change (len [128]) with 1. destruct l as [y|]; cbn [lim_ge lim_sub] in *; [lia|trivial]. }
+    rewrite (HL vs es Cer body Hoks El Eb f (mkCons Indefinite Cer) (0 :: 0 :: rest) l1 ltac:(lia) (or_introl eq_refl)
+               ltac:(apply octets_ok_app_r in Ho; apply octets_ok_app_r in Ho; exact Ho)
+               ltac:(eapply lim_ge_mono; [|exact Hl1]; lia)
+               ltac:(split; [discriminate|intro E; discriminate E])).
+    cbv beta iota. unfold ret at 1. cbv beta iota. cbn [content_exhausted].
+    rewrite (bind_ok _ _ _ _ _ (cons_exhausted_eoc Cer rest (lim_sub l1 (len body))
+               ltac:(apply octets_ok_app_r in Ho; apply octets_ok_app_r in Ho; apply octets_ok_app_r in Ho; exact Ho)
+               ltac:(apply lim_ge_sub; eapply lim_ge_mono; [|exact Hl1]; lia))).
+    unfold ret. subst l1. rewrite !lim_sub_sub. change (len [128]) with 1.
+    replace (len (tag_write true t) + 1 + len body + 2) with (len (tag_write true t) + 1 + (len body + 2)) by lia.
+    reflexivity.
+  - (* DER: definite *)
+    destruct (enc_len Der (ESeq es)) as [n| | | |] eqn:En; try discriminate. cbn [res_bind] in Hw.
+    destruct (length_write n) as [lw| | | |] eqn:Elw; try discriminate. cbn [res_bind] in Hw.
+    destruct (enc_write Der (ESeq es)) as [body| | | |] eqn:Eb; try discriminate. injection Hw as <-.
+    rewrite enc_len_is_written, Eb in En. injection En as <-.
+    split. { rewrite len_app. lia. }
+    intros fuel c rest l Hf Hm Ho Hl Hc. rewrite sdepth_seq in Hf. destruct fuel as [|f]; [lia|]. cbn [dec_s].
+    rewrite <- !app_assoc in *. rewrite !len_app in Hl.
+    assert (Hl' : lim_ge l (len (tag_write true t) + len lw)) by (eapply lim_ge_mono; [|exact Hl]; lia).
+    unfold mandatory.
+    rewrite (bind_ok _ _ _ (Some (VSeq vs), c) (mkSrc rest (lim_sub l (len (tag_write true t) + (len lw + len body))) None)); [rewrite !len_app; reflexivity|].
+    rewrite (pnv_header_if c _ t true lw (Definite_ (len body)) (body ++ rest) l Hleg Ho
+               (lenoct_reads _ _ _ _ Hm (lenoct_write Der _ _ Elw) _) Hl'
+               (may_start_of c l _ Hc Hl' ltac:(lia))).
+    unfold pnv_tail. rewrite Heov.
+    set (l1 := lim_sub l (len (tag_write true t) + len lw)).
+    assert (Hl1 : lim_ge l1 (len body)) by (subst l1; destruct l as [y|]; cbn [lim_ge lim_sub] in *; [lia|trivial]).
+    unfold bind at 1. unfold get_lim at 1. cbn [lim]. cbv beta iota.
+    unfold bind at 1. rewrite (lim_check l1 (len body) Hl1). cbv beta iota.
+    unfold bind at 1. unfold set_limit at 1. cbn [rem flt]. cbv beta iota.
+    assert (Hnc : mode_eqb (cmd c) Cer = false) by (destruct Hm as [->|[_ ->]]; reflexivity).
+    rewrite Hnc. cbn [andb]. unfold bind at 1. unfold ret at 1. cbv beta iota.
+    unfold bind at 1. unfold bind at 1.
+    rewrite (HL vs es Der body Hoks El Eb f (mkCons Definite (cmd c)) rest (Some (len body)) ltac:(lia) Hm
+               ltac:(apply octets_ok_app_r in Ho; apply octets_ok_app_r in Ho; exact Ho) ltac:(cbn; lia)
+               ltac:(split; [discriminate|intros _; eauto])).
+    cbv beta iota. unfold ret at 1. cbv beta iota. cbn [lim_sub]. replace (len body - len body) with 0 by lia.
+    cbn [content_exhausted cons_exhausted cst]. unfold bind at 1. rewrite src_exhausted_0. cbv beta iota.
+    unfold bind, set_limit, ret. cbn [rem flt]. subst l1. rewrite lim_sub_sub.
+    replace (len (tag_write true t) + len lw + len body) with (len (tag_write true t) + (len lw + len body)) by lia.
+    reflexivity.
+Qed.
+
+Theorem schema_roundtrip s : RT s.
+Proof. induction s using schema_ind'; [apply RT_leaf|apply RT_seq; assumption]. Qed.
+
+(* for a whole input: encode a value of the schema, decode the octets with the
+   typed readers of the schema, get the value back, with nothing left over *)
+Theorem schema_roundtrip_top s v e m m' d : schema_ok s -> enc_s s v = Some e -> enc_write m e = Ok d ->
+  octets_ok d = true -> reads m m' ->
+  decode_src m' (dec_s (sdepth s) s) (pure_src d None) = (Ok v, pure_src [] None).
+Proof.
+  intros Hok He Hw Ho Hr. destruct (schema_roundtrip s v e m d Hok He Hw) as [_ H].
+  unfold decode_src, pure_src. rewrite <- (app_nil_r d) at 1.
+  rewrite (bind_ok _ _ _ _ _ (H (sdepth s) (mkCons Unbounded m') [] None ltac:(lia) Hr
+             ltac:(rewrite app_nil_r; exact Ho) I ltac:(split; [discriminate|intro E; discriminate E]))).
+  reflexivity.
+Qed.
+
+(* non-vacuity: a record with a nested record *)
+Example schema_example :
+  let s := SSeq T_SEQUENCE [SLeaf T_INTEGER (LInt 2); SSeq T_SET [SLeaf T_BOOLEAN LBool; SLeaf T_NULL LNull]] in
+  let v := VSeq [VInt (-300); VSeq [VBool true; VNull]] in
+  schema_ok s /\ exists e, enc_s s v = Some e /\ enc_write Der e = Ok [48; 11; 2; 2; 254; 212; 49; 5; 1; 1; 255; 5; 0].
+Proof.
+  cbv zeta. split.
+  - cbn. repeat split; try (left; reflexivity).
+  - eexists. split; [reflexivity|]. vm_compute. reflexivity.
 Qed.
